@@ -4,7 +4,7 @@ import pickle
 import numpy as np
 from hypothesis import strategies as st
 
-from vf.core import Decline, Prop, Violation, case_hash, innermost_funsor_frame
+from vf.core import robust_gen, Decline, Prop, Violation, case_hash, innermost_funsor_frame
 from vf.gen import Opts, SeedSource, gen_expr
 from vf.lang import Oracle, OutOfDomain, ast_shrinks, close, parse_index, show, typeof, walk
 from vf.props.c01 import ast_signature
@@ -89,7 +89,7 @@ class C18(Prop):
     cases = {"quick": 2000, "thorough": 80000}
 
     def strategy(self, tier):
-        return st.integers(0, 2**40).map(gen_case)
+        return st.integers(0, 2**40).map(robust_gen(gen_case))
 
     def describe(self, case):
         return f"[{case['mode']}] (" + ", ".join(show(p) for p in case["parts"]) + ")"
